@@ -1,6 +1,8 @@
 package engine
 
 import (
+	"fmt"
+
 	"github.com/mk6i/mkdb/sql"
 	"github.com/mk6i/mkdb/storage"
 )
@@ -19,6 +21,13 @@ func EvaluateInsert(q sql.InsertStatement, rm RelationManager) (int, error) {
 	for _, tvc := range vals {
 		walEntries, err := rm.Insert(tbl, cols, tvc.RowValueConstructorList)
 		if err != nil {
+			if count > 0 {
+				// a statement that fails must change nothing: take back the
+				// rows that were already inserted
+				if undoErr := undoInsert(rm, tbl, count, batch); undoErr != nil {
+					return 0, fmt.Errorf("%w (and the rows inserted before the failing one could not be removed: %s)", err, undoErr.Error())
+				}
+			}
 			return 0, err
 		}
 		count++
@@ -30,4 +39,28 @@ func EvaluateInsert(q sql.InsertStatement, rm RelationManager) (int, error) {
 	}
 
 	return count, nil
+}
+
+// undoInsert removes the last count rows of the table - the rows the current
+// statement (which holds the statement lock) has appended so far - and logs
+// the inserts followed by their deletions, so that a log replay ends up in
+// the same state as the page cache.
+func undoInsert(rm RelationManager, tbl string, count int, batch storage.WALBatch) error {
+	rows, _, err := rm.Fetch(tbl)
+	if err != nil {
+		return err
+	}
+	if len(rows) < count {
+		return fmt.Errorf("table %s holds %d rows, expected at least %d", tbl, len(rows), count)
+	}
+	// last row first: whatever prefix of the log survives a crash, the table
+	// never holds a later row of the statement without the earlier ones
+	for i := len(rows) - 1; i >= len(rows)-count; i-- {
+		walEntries, err := rm.MarkDeleted(tbl, rows[i].RowID)
+		if err != nil {
+			return err
+		}
+		batch = append(batch, walEntries...)
+	}
+	return rm.FlushWALBatch(batch)
 }
